@@ -613,6 +613,12 @@ class BuiltinsMixin:
                 "str.format is an uninterpreted function of the template "
                 "and its arguments")
             return VStr(f(s, *[v.e for v in vals]))
+        if name == "join" and getattr(self.uni, "join_uf", False) and \
+                args and isinstance(args[0], VStr):
+            # the joined sequence is abstracted to an opaque string value:
+            # join is then a function of (separator, that value)
+            f = self.uni.uf("str_join_opaque", ["str", "str"], "str")
+            return VStr(f(s, args[0].e))
         if name == "join":
             self.uni.note_assumption(
                 "str.join results are abstracted to arbitrary strings")
